@@ -718,8 +718,11 @@ def rule_dim(ctx):
         detail = {
             "operands": [s.names[sl] for sl in s.slots],
             "touched": [s.names[sl] for sl in touched],
-            "ties": sorted({"%s~%s: %s%s" % (s.names[x], s.names[y], kind, "" if valid else " (does not dominate the accesses)")
-                            for x, y, site, kind, valid in s.ties}),
+            "shapes": {s.names[sl]: "{%s}" % ",".join(sorted(SHAPE[s.kind[sl][0]])) for sl in touched},
+            "ties": sorted({"%s~%s: %s %s%s" % (s.names[x], s.names[y], kind,
+                                                sorted("%s-%s" % p for p in prs),
+                                                "" if valid else " (does not dominate the accesses)")
+                            for x, y, site, kind, valid, prs in s.ties}),
         }
         msg = ""
         if not ok:
@@ -727,6 +730,9 @@ def rule_dim(ctx):
             msg = ("elements of %s are accessed but no dimension comparison throwing Exception::BadRank "
                    "(nor a resize, nor a checking callee) ties %s before the first access"
                    % (", ".join(detail["touched"]), " | ".join("{" + ", ".join(g) + "}" for g in groups)))
+            why = sorted("%s~%s: %s" % (s.names[x], s.names[y], w) for (x, y), w in s.untied.items())
+            if why:
+                msg += " [" + "; ".join(why) + "]"
         prev = seen.get(key)
         if prev is not None:
             if prev[0] == ok:
